@@ -143,16 +143,20 @@ def Shared.get? (s : Shared) (id : Nat) : Option Nat :=
   match s.indexOf? id with
   | some i => s.data[i]?
   | none => none
+/-- entries are kept ordered by shared-type id (the canonical descriptor `getArchetype` builds) -/
 def Shared.add (s : Shared) (id inst : Nat) : Shared :=
   match s.indexOf? id with
   | some i => { s with data := s.data.set i inst }
-  | none => ⟨s.ids ++ [id], s.data ++ [inst]⟩
+  | none =>
+    let k := (s.ids.filter (· < id)).length
+    ⟨s.ids.take k ++ [id] ++ s.ids.drop k, s.data.take k ++ [inst] ++ s.data.drop k⟩
 def Shared.remove (s : Shared) (id : Nat) : Shared :=
   match s.indexOf? id with
   | some i => ⟨s.ids.eraseIdx i, s.data.eraseIdx i⟩
   | none => s
 /-- `this.merge(oth)`: oth's entries first, then this's (fixed code copies ids and data alike) -/
-def Shared.merge (s oth : Shared) : Shared := ⟨oth.ids ++ s.ids, oth.data ++ s.data⟩
+def Shared.merge (s oth : Shared) : Shared :=
+  (s.ids.zip s.data).foldl (fun r p => r.add p.1 p.2) oth
 
 /-! ## id table -/
 
@@ -382,13 +386,14 @@ def WM.update (w : WM) : WM × Res × List Cb :=
   ({ w with marked := [] }, .ok, cbs)
 
 /-- `clearArchetype` of archetype `ai` -/
-def WM.clearArch (w : WM) (ai : Nat) : WM :=
+def WM.clearArch (w : WM) (ai : Nat) : WM × List Cb :=
   let a := w.arch ai
+  let cbs := a.rows.flatMap (fun r => (a.mask.filter (fun c => (info c).callbacks)).map (Cb.remove · r.ent))
   let w := a.rows.foldl (fun (w : WM) r =>
     let w := { w with locs := w.locs.set r.ent.id ⟨none, (w.locOf r.ent).idx⟩ }
     { w with slots := w.slots.set r.ent.id ⟨if w.empty ≠ 0 then w.next else r.ent.id + 1, (r.ent.ver + 1) % 2^24⟩,
              next := r.ent.id, empty := w.empty + 1 }) w
-  w.setArch ai { a with rows := [] }
+  (w.setArch ai { a with rows := [] }, cbs)
 
 /-- `clone(e)`; unlocked only (contract) -/
 def WM.clone (w : WM) (e : Handle) : WM × Option Handle :=
@@ -533,12 +538,15 @@ def packs : List Cmd → List (List Cmd)
       | [] => [c] :: ps
       | d :: _ => if c.entity = d.entity then (c :: p) :: ps else [c] :: p :: ps
 
-/-- is assign command number `i` of the pack superseded by a later assign/remove of the same component? -/
-def superseded (pack : List Cmd) (i : Nat) (c : CompId) : Bool :=
-  (pack.drop (i + 1)).any (fun d => match d with
-    | .assign _ c' _ => c' == c
-    | .remove _ c' => c' == c
-    | _ => false)
+def closedMask (deps : List (CompId × Mask)) (m : Mask) : Mask := Mask.union m (extraComponents deps m)
+
+/-- folding state of `applyCommandPack`: component set after each command (closed under the dependencies),
+    components removed/re-assigned on the way, and which assign command supplies which value -/
+structure PackSt where
+  final : Mask
+  replaced : Mask := []
+  src : List (CompId × Val) := []      -- in order of the supplying assign commands
+  dead : Bool := false
 
 /-- `applyCommandPack` -/
 def WM.applyPack (w : WM) (pack : List Cmd) : WM × List Cb :=
@@ -560,52 +568,64 @@ def WM.applyPack (w : WM) (pack : List Cmd) : WM × List Cb :=
         | some ai => some (w, (w.arch ai).mask, (w.arch ai).shared)
     match start with
     | none => (w, [])              -- target not alive at this point: the whole pack is skipped
-    | some (w, initial, sh) =>
+    | some (w, initial0, sh) =>
+      let initial := closedMask w.deps initial0
       let body := if isCreate then rest else pack
-      -- first pass: final mask, destroys
-      let step := fun (acc : WM × Mask × Bool × List Cb) (c : Cmd) =>
-        let (w, fm, dead, cbs) := acc
-        if dead then acc else
+      let step := fun (acc : WM × PackSt × List Cb) (c : Cmd) =>
+        let (w, p, cbs) := acc
+        if p.dead then acc else
         match c with
         | .destroyNow _ =>
-          if isCreate then (w.release e, fm, true, cbs)
-          else let (w', cb) := w.destroyNowU info e; (w', fm, true, cbs ++ cb)
+          if isCreate then (w.release e, { p with dead := true }, cbs)
+          else let (w', cb) := w.destroyNowU info e; (w', { p with dead := true }, cbs ++ cb)
         | .create .. => acc        -- "Create command should be first": exception in the code, excluded by construction
-        | .destroy h => ({ w with marked := insertSorted w.marked h }, fm, false, cbs)
-        | .remove _ c => (w, Mask.erase fm c, false, cbs)
-        | .assign _ c _ => (w, Mask.insert fm c, false, cbs)
-      let (w, final, dead, cbs) := body.foldl step (w, initial, false, [])
-      if dead then (w, cbs) else
-      let (w, ti) := w.getArch final sh
+        | .destroy h => ({ w with marked := insertSorted w.marked h }, p, cbs)
+        | .remove _ c =>
+          if p.final.contains c then
+            let next := closedMask w.deps (Mask.erase p.final c)
+            if next.contains c then acc
+            else (w, { p with final := next, replaced := Mask.insert p.replaced c, src := p.src.filter (·.1 != c) }, cbs)
+          else acc
+        | .assign _ c v =>
+          let src := p.src.filter (·.1 != c) ++ [(c, v)]
+          if p.final.contains c then (w, { p with replaced := Mask.insert p.replaced c, src := src }, cbs)
+          else (w, { p with final := closedMask w.deps (Mask.insert p.final c), src := src }, cbs)
+      let (w, p, cbs) := body.foldl step (w, { final := initial }, [])
+      if p.dead then (w, cbs) else
+      let supplied := Mask.ofList (p.src.map (·.1))
+      let (w, ti) := w.getArch p.final sh
       let moved : WM × List Cb :=
-        if isCreate then w.archInsert info ti e (Mask.diff final initial)
+        if isCreate then w.archInsert info ti e supplied
         else
           let l := w.locOf e
           match l.arch with
-          | some pi => if pi = ti || initial == final then (w, []) else
-              match w.externalMove info ti e pi l.idx final with
+          | some pi => if pi = ti || initial == p.final then (w, []) else
+              match w.externalMove info ti e pi l.idx supplied with
               | some r => r
               | none => (w, [])
           | none => (w, [])
       let (w, cbs1) := moved
-      -- move-construct the assigned values that survive to the end of the pack
       let l' := w.locOf e
-      let idxd := pack.zipIdx
-      let (w, cbs2) := idxd.foldl (fun (acc : WM × List Cb) (ci : Cmd × Nat) =>
-        match ci.1 with
-        | .assign _ c v =>
-          if superseded pack ci.2 c then acc else
-          let w := acc.1
-          let ta := w.arch ti
-          match ta.mask.indexOf? c with
-          | none => acc
-          | some k =>
-            let row := ta.rows.getD l'.idx default
-            let w := w.setArch ti { ta with rows := ta.rows.set l'.idx { row with vals := row.vals.set k v } }
-            (w, acc.2 ++ (if (info c).callbacks && initial.contains c then [Cb.remove c e] else [])
-                      ++ (if (info c).callbacks then [Cb.assign c e] else []))
-        | _ => acc) (w, [])
-      (w, cbs ++ cbs1 ++ cbs2)
+      let setVal := fun (w : WM) (c : CompId) (v : Val) =>
+        let ta := w.arch ti
+        match ta.mask.indexOf? c with
+        | none => w
+        | some k =>
+          let row := ta.rows.getD l'.idx default
+          w.setArch ti { ta with rows := ta.rows.set l'.idx { row with vals := row.vals.set k v } }
+      -- components removed on the way and present again: the carried-over instance is replaced
+      let stale := (p.final.filter (fun c => p.replaced.contains c && initial.contains c)).filter
+        (fun c => !(isCreate && supplied.contains c) && (w.arch ti).mask.contains c)
+      let (w, cbs2) := stale.foldl (fun (acc : WM × List Cb) c =>
+        let cbR := if (info c).callbacks then [Cb.remove c e] else []
+        if supplied.contains c then (acc.1, acc.2 ++ cbR)
+        else (setVal acc.1 c (defaultVal info c), acc.2 ++ cbR ++ (if (info c).callbacks then [Cb.assign c e] else []))) (w, [])
+      -- move-construct the supplied values
+      let (w, cbs3) := p.src.foldl (fun (acc : WM × List Cb) (cv : CompId × Val) =>
+        if (w.arch ti).mask.contains cv.1 then
+          (setVal acc.1 cv.1 cv.2, acc.2 ++ (if (info cv.1).callbacks then [Cb.assign cv.1 e] else []))
+        else acc) (w, [])
+      (w, cbs ++ cbs1 ++ cbs2 ++ cbs3)
 
 /-- `onUnlock`: buffers in thread-id order, packs in log order; then the temporaries are destroyed -/
 def WM.flush (w : WM) : WM × List Cb :=
